@@ -2239,6 +2239,11 @@ async fn handle_packet(
     sender: IceSocketWrapper,
     marshal_buf: &mut Vec<u8>,
 ) {
+    if packet.is_empty() {
+        // A TURN server can relay an empty datagram (ChannelData of length 0 or
+        // an empty DATA attribute); there is no first octet to classify.
+        return;
+    }
     if should_drop_packet() {
         return;
     }
